@@ -193,11 +193,12 @@ def property_theorems(prop_id: str) -> list[str]:
 class Driver:
     """The model behind the line protocol."""
 
-    def __init__(self):
-        if not DRIVER.exists():
-            raise InfraError(f"{DRIVER} missing (run setup.sh)")
+    def __init__(self, exe: str = "pmdriver"):
+        path = DRIVER.parent / exe
+        if not path.exists():
+            raise InfraError(f"{path} missing (run setup.sh)")
         self.p = subprocess.Popen(
-            [str(DRIVER)], stdin=subprocess.PIPE, stdout=subprocess.PIPE, text=True, bufsize=1
+            [str(path)], stdin=subprocess.PIPE, stdout=subprocess.PIPE, text=True, bufsize=1
         )
         self.lines = 0
 
